@@ -5,10 +5,12 @@ import (
 	"github.com/evanoberholster/imagemeta/imagetype"
 	"github.com/evanoberholster/imagemeta/meta"
 	"github.com/evanoberholster/imagemeta/meta/utils"
+	"github.com/evanoberholster/imagemeta/verifhook"
 	"github.com/pkg/errors"
 )
 
 func (r *Reader) ReadMetadata() (err error) {
+	defer func() { verifhook.T("bmff", "ret", verifErr(err), int64(r.offset)) }()
 	b, err := r.readBox()
 	if err != nil {
 		if logLevelDebug() {
@@ -59,11 +61,13 @@ func (r *Reader) readMdat(b *box) (err error) {
 	}
 
 	if r.ExifReader != nil {
+		verifhook.T("bmff", "cb>", 1, int64(inner.remain), int64(header.FirstIfd), int64(header.FirstIfdOffset), int64(header.ExifLength))
 		if err = r.ExifReader(&inner, header); err != nil {
 			if logLevelError() {
 				logError().Object("box", inner).Err(err).Send()
 			}
 		}
+		verifhook.T("bmff", "cb<", 1, int64(inner.remain))
 	}
 
 	if logLevelInfo() {
@@ -98,6 +102,7 @@ func (r *Reader) newExifBox(b *box) (inner box, err error) {
 		remain:  int(r.heic.exif.ol.length),
 	}
 
+	verifhook.T("bmff", "open", int64(inner.offset), inner.size, 0, int64(inner.depth()), int64(inner.boxType))
 	_, err = inner.Discard(size + 4)
 	return inner, err
 }
